@@ -10,7 +10,7 @@ ID = 'C04'
 LEVEL = 'exploration'
 RUNS = {'quick': 24000, 'thorough': 400000}
 CHUNK = 100
-PROBES = ['record_names_thread_with_open_window', 'stray_end', 'stray_end_inside_open_window', 'reopened_start', 'crossing_pairs', 'nested_same_thread',
+PROBES = ['timestamps_not_monotone', 'timestamp_ties', 'record_names_thread_with_open_window', 'stray_end', 'stray_end_inside_open_window', 'reopened_start', 'crossing_pairs', 'nested_same_thread',
           'other_thread_between', 'trace_domain_window', 'trace_record_inside_ordinary_window', 'undecoded_pair',
           'unknown_code', 'all_qualifier', 'fragment_none', 'fault_in_open_window', 'decoder_raised']
 RULE = ('one run = 1..6 thread programs (all decoder families, trace-domain records, known-but-undecoded and unknown '
@@ -98,7 +98,7 @@ def generate(rng, index, tier):
     ids = worlds.catalog()['ids']
     per = kernel.expand_threads(threads, ids)
     total = sum(len(p) for p in per)
-    scn = {'threads': threads, 'schedule': kernel.draw_schedule(rng, per, rng.pick(kernel.SHAPES))}
+    scn = {'threads': threads, 'schedule': kernel.draw_schedule(rng, per, rng.pick(kernel.SHAPES)), 'tsmode': worlds.draw_tsmode(rng)}
     faults = []
     for _ in range(rng.pick([0, 0, 1, 1, 2, 3])):
         k = rng.pick(['wrap', 'drop', 'drop', 'burst', 'kill'])
@@ -152,10 +152,13 @@ def execute(scn):
     for name in list(parser.handlers):
         parser.handlers[name] = spy(name, parser.handlers[name])
 
+    if scn.get('tsmode'):
+        bump('probe:timestamps_not_monotone' if scn['tsmode'][0] == 'jitter' else 'probe:timestamp_ties')
     m = model.Windows()
     viols = []
     hist = []
     sigs = set()
+    reported = []     # (trace, window delivered at that moment) - nothing already reported may change later
     threads_seen = set()
     last_th = None
     switches = 0
@@ -231,6 +234,13 @@ def execute(scn):
                         bad('window-contents', 'matched', 'record %d END of %s: window %r, must %r, may %r' % (i, name, w, exp['must'], exp['may']))
                     if ret is None:
                         bad('no-trace-on-matched-end', 'matched', 'record %d END of %s (decodable): no trace' % (i, name))
+                    elif not isinstance(ret, DecoderRaised) and name != 'TRACE_STRING_GLOBAL' and isinstance(getattr(ret, 'ktraces', None), list):
+                        # the trace's own event list is the delivered window (TRACE_STRING_GLOBAL keeps, by design, only the
+                        # records up to the first END-qualified one)
+                        kt = [index_of.get(id(e), -1) for e in ret.ktraces]
+                        if not kt or kt[0] != exp['may'][0] or kt[-1] != i or not model.window_ok(kt, exp['must'], exp['may']):
+                            bad('trace-event-list', 'matched', 'record %d END of %s: trace.ktraces %r, window must %r may %r' % (i, name, kt, exp['must'], exp['may']))
+                        reported.append((ret, list(ret.ktraces), i))
             else:
                 if name is not None:
                     bump('probe:undecoded_pair')
@@ -271,6 +281,10 @@ def execute(scn):
                 if o['k'] == 'raw':
                     pass
             return False
+    for t, snap, at in reported:
+        if len(t.ktraces) != len(snap) or any(a is not b for a, b in zip(t.ktraces, snap)):
+            bad('reported-trace-changed-later', 'ktraces', 'the trace reported at record %d had %d events then and has %d at the end of the stream' % (at, len(snap), len(t.ktraces)))
+            break
     crossing = _count_crossing(stream)
     if crossing:
         bump('probe:crossing_pairs', crossing)
